@@ -17,7 +17,7 @@ import vf
 
 # ----------------------------------------------------------------------------------------------
 # universe of the exhaustive sweep: 4 block names, 2 rock types (5-character names on which
-# mulgrids.fix_blockname is the identity, so rename_blocks(fix_blocknames=True/False) agree)
+# mulgrids.fix_blockname is the identity; the universe UF below is the one on which it is not)
 U = ['  a 1', '  b 1', '  c 1', '  d 1']
 RK = ['rock1', 'rock2']
 VOL = 1000.0
@@ -42,7 +42,31 @@ SEEDS['pair+disjoint'] = SEEDS['pair'] + [('x', ('ar', RK[0])), ('x', ('ab', Q[0
 SEEDS['chain+overlap'] = [('ar', RK[0]), ('ar', RK[1]), ('ab', U[0], RK[0]), ('ab', U[1], RK[0], 1.e25), ('ab', U[2], RK[1], 0.0),
                           ('ac', U[0], U[1]), ('ac', U[1], U[2])] + [('x', ('ar', RK[1])), ('x', ('ab', U[1], RK[1], 600.0)), ('x', ('ab', Q[0], RK[1], 600.0)),
                                            ('x', ('ac', U[1], Q[0]))]
+# names on which mulgrids.fix_blockname is NOT the identity: 'ab1 1' is the TOUGH2 (a3, i2) spelling of 'ab101'.  rename_blocks with
+# its default fix_blocknames=True rewrites the map first; the start grid 'fixpair' draws block names and rename maps from this universe
+UF = ['ab101', 'ab102', 'ab1 1', 'ab1 2']
+SEEDS['fixpair'] = [('ar', RK[0]), ('ar', RK[1]), ('ab', UF[0], RK[0]), ('ab', UF[1], RK[1]), ('ac', UF[0], UF[1])]
+SEED_UNIVERSE = {'fixpair': UF}
 TWO_GRID = ('x', 'ad', 'em')
+
+
+def py_fix_name(n):
+    """mulgrids.fix_blockname, written again here (the classifier of inputs must not depend on the code under test)"""
+    return n[:3] + '0' + n[4:5] if (len(n) > 4 and n[2].isdigit() and n[4].isdigit() and n[3] == ' ') else n
+
+
+def py_unfix_name(n):
+    """the (a3, i2) spelling of a fixed name ('ab101' -> 'ab1 1'); other names as they are"""
+    return n[:3] + ' ' + n[4:] if (len(n) == 5 and n[2].isdigit() and n[4].isdigit() and n[3] == '0') else n
+
+
+def py_fix_map(m):
+    """the name map as rename_blocks(fix_blocknames=True) uses it: values fixed, then the entries with an unfixed key moved"""
+    vals = dict((k, py_fix_name(v)) for k, v in m.items())
+    res = dict((k, v) for k, v in vals.items() if py_fix_name(k) == k)
+    for k, v in vals.items():
+        if py_fix_name(k) != k: res[py_fix_name(k)] = v
+    return res
 
 
 def _impl():
@@ -52,10 +76,10 @@ def _impl():
 
 class St(object):
     """the grid under edit, and (two-grid cases) a second grid; `shared`: they hold common objects"""
-    __slots__ = ('main', 'other', 'shared')
+    __slots__ = ('main', 'other', 'shared', 'universe')
 
-    def __init__(self, main, other=None):
-        self.main, self.other, self.shared = main, other, False
+    def __init__(self, main, other=None, universe=None):
+        self.main, self.other, self.shared, self.universe = main, other, False, universe or U
 
     def second(self):
         if self.other is None: self.other = _impl().t2grid()
@@ -164,7 +188,7 @@ def encode_op(op):
     if k == 'ad': return 'ad,%d' % op[1]
     if k == 'em': return 'em,%s,%s,%s,%d' % ('o' if op[1] == 'o' else 'f', hx(op[2]), hx(op[3]), op[4])
     if k == 'dm': return ','.join(['dm'] + [hx(n) for n in op[1]])
-    if k == 'rn': return ','.join(['rn'] + [hx(x) for kv in op[1] for x in kv])
+    if k == 'rn': return ','.join(['rf' if op[2] else 'rn'] + [hx(x) for kv in op[1] for x in kv])
     if k == 'ro': return ','.join(['ro'] + [hx(n) for n in op[1]]) + ';' + ','.join(hx(x) for c in op[2] for x in c)
     raise RuntimeError('unknown op %r' % (op,))
 
@@ -298,6 +322,7 @@ def classify(st, op, other_consistent=True):
         return True, ('embed:own-block-objects' if op[1] == 'o' else 'embed:foreign-block-objects')
     if k == 'rn':
         m = dict(op[1])
+        if op[2]: m = py_fix_map(m)           # fix_blocknames=True: the map that is applied
         present = [b.name for b in g.blocklist]
         new = [m.get(n, n) for n in present]
         if len(set(new)) != len(new):
@@ -329,6 +354,8 @@ def classify(st, op, other_consistent=True):
         if any(b.rocktype.name == op[1] and b.rocktype is not reg for b in g.blocklist):
             return True, 'rename_rocktype:stale-rocktype-object'
         return True, 'rename_rocktype:registered-object'
+    if k == 'dc' and op[1] == op[2] and (op[1], op[2]) in g.connection: return True, 'delete_connection:self-connection'
+    if k == 'db' and (op[1], op[1]) in g.connection: return True, 'delete_block:self-connection'
     names = {'ar': 'add_rocktype', 'cr': 'clean_rocktypes', 'db': 'delete_block', 'dm': 'demote_block',
              'ac': 'add_connection', 'dc': 'delete_connection'}
     return True, names.get(k, k) + ':any'
@@ -337,20 +364,22 @@ def classify(st, op, other_consistent=True):
 # ----------------------------------------------------------------------------------------------
 # running one sequence on the implementation
 class Outcome(object):
-    __slots__ = ('obs', 'error', 'fail', 'steps', 'domain_exits', 'strong_rock_breaks')
+    __slots__ = ('obs', 'error', 'fail', 'steps', 'domain_exits', 'strong_rock_breaks', 'refused')
 
     def __init__(self):
         self.obs, self.error, self.fail, self.steps = [], None, None, 0
         self.domain_exits, self.strong_rock_breaks = [], 0
+        self.refused = []         # exception classes of the refused edits after which the sequence went on
 
 
 class Watch(object):
     """the statement evaluated after every step of one sequence: only the FIRST break is reported
     (later ones are consequences); breaks caused by an edit outside the quantifier are counted apart"""
-    __slots__ = ('consistent', 'other_ok', 'strong', 'fail', 'domain_exits', 'strong_breaks')
+    __slots__ = ('consistent', 'other_ok', 'strong', 'fail', 'domain_exits', 'strong_breaks', 'now_ok')
 
     def __init__(self, st):
         self.consistent = not inv_violations(st.main)          # no break so far
+        self.now_ok = self.consistent                          # the main grid is consistent at this moment
         self.other_ok = st.other is None or not inv_violations(st.other)
         self.strong, self.fail, self.domain_exits, self.strong_breaks = True, None, [], 0
 
@@ -358,7 +387,19 @@ class Watch(object):
         w = Watch.__new__(Watch)
         w.consistent, w.other_ok, w.strong, w.fail = self.consistent, self.other_ok, self.strong, self.fail
         w.domain_exits, w.strong_breaks = list(self.domain_exits), self.strong_breaks
+        w.now_ok = self.now_ok
         return w
+
+    def catches(self, st, op):
+        """asked BEFORE the call: if this edit is refused (raises), does the sequence go on?  Yes when the grid(s) it is
+        applied to are consistent now: then the statement must hold of what the refused edit leaves behind.  (After a
+        break of the statement a raising edit ends the sequence: the model does not describe half-done edits of an
+        inconsistent grid.)  The extracted driver decides the same with inv_b."""
+        k = op[0]
+        if k == 'ad': return False
+        if k == 'x': return not inv_violations(st.second(), limit=1)
+        if k == 'em': return self.now_ok and not inv_violations(st.second(), limit=1)
+        return self.now_ok
 
     def before(self, st, op):
         return classify(st, op, self.other_ok) if self.consistent else (True, None)
@@ -380,42 +421,66 @@ class Watch(object):
                 else: self.domain_exits.append(key)
             elif self.strong and not rock_identity_ok(st.main):
                 self.strong = False; self.strong_breaks += 1
-            return not v
-        if mark: return not inv_violations(st.main, limit=1)   # after the first break: only the verdict, for the comparison with the model's
-        return True
+            self.now_ok = not v
+            return self.now_ok
+        # after the first break: only the verdict, for the comparison with the model's and for `catches`
+        self.now_ok = not inv_violations(st.main, limit=1)
+        return self.now_ok
 
 
 def is_dual(ops):
     return any(o[0] in TWO_GRID for o in ops)
 
 
+def do_step(w, st, op, t, dual, hash_mode, cls=None):
+    """one edit on the real grid(s): (observation, exception class or None, whether the sequence ends here).
+    A refused edit (exception) of a consistent grid does not end the sequence: the grid is dumped and the statement is
+    evaluated on what the refused edit left behind (finding key <method>:refused-call), and the caller goes on."""
+    dom, key = cls if cls is not None else w.before(st, op)
+    caught = w.catches(st, op)
+    try:
+        apply_op(st, op)
+    except Exception as e:
+        name = exn_name(e)
+        if not caught: return 'E:' + name, name, True
+        if key and not key.endswith(':self-connection'): key = key.split(':')[0] + ':refused-call'
+        ok = w.after(st, op, t, dom, key)
+        # (a refused delete_block ends the comparison with the model: Python walks a set of connection names, the model a
+        #  list; the statement has been evaluated on what it left behind all the same)
+        if (op[1][0] if op[0] == 'x' else op[0]) == 'db': return 'E:' + name, name, True
+        d = dump_st(st, dual)
+        return 'E:%s@%s' % (name, adler(d) if hash_mode else d if ok else d + '!'), name, False
+    ok = w.after(st, op, t, dom, key)
+    d = dump_st(st, dual)
+    return (adler(d) if hash_mode else d if ok else d + '!'), None, False
+
+
 def run_impl_sequence(st, ops, hash_mode=False, dual=None):
     """Apply `ops` to the real grid(s) `st`; after each step record the canonical dump and evaluate the
-    statement.  Stops at the first exception (like the model)."""
+    statement (also after a refused edit, see do_step)."""
     out = Outcome()
     if dual is None: dual = is_dual(ops) or st.other is not None
     w = Watch(st)
     for t, op in enumerate(ops):
-        dom, key = w.before(st, op)
-        try:
-            apply_op(st, op)
-        except Exception as e:
-            out.error = (t, exn_name(e))
-            out.obs.append('E:' + exn_name(e))
-            break
+        o, err, stop = do_step(w, st, op, t, dual, hash_mode)
+        out.obs.append(o)
+        if stop:
+            out.error = (t, err); break
         out.steps += 1
-        d = dump_st(st, dual)
-        ok = w.after(st, op, t, dom, key, mark=not hash_mode)
-        out.obs.append(adler(d) if hash_mode else d if ok else d + '!')
+        if err: out.refused.append(err)
     out.fail, out.domain_exits, out.strong_rock_breaks = w.fail, w.domain_exits, w.strong_breaks
     return out
 
 
-def build_seed(ops):
+def build_seed(ops, universe=None):
     T = _impl()
-    st = St(T.t2grid())
+    st = St(T.t2grid(), universe=universe)
     for op in ops: apply_op(st, op)
     return st
+
+
+def seed_state(name):
+    return build_seed(SEEDS[name], SEED_UNIVERSE.get(name))
 
 
 # ----------------------------------------------------------------------------------------------
@@ -438,6 +503,7 @@ def alphabet(st, n):
     """the edits tried at a node of the exhaustive tree whose current state is `st` (n: a running
     number used to alternate the equivalent call forms)"""
     g = st.main
+    U = st.universe
     ops = []
     present = list(dict.fromkeys(b.name for b in g.blocklist))
     absent = [u for u in U if u not in g.block]
@@ -462,9 +528,15 @@ def alphabet(st, n):
     if not keys: ops.append(('dc', U[0], U[1]))
     # renames: every one-to-one map on the universe that does not collide with an unrenamed block
     k = 0
+    fixu = any(py_fix_name(u) != u for u in U)
     for m in injective_maps(present, U):
         k += 1
-        ops.append(('rn', m, (n + k) % 2))
+        if fixu:
+            # names that fix_blockname rewrites: both call forms, and the map written in the (a3, i2) spelling of the names
+            ops.append(('rn', m, 0)); ops.append(('rn', m, 1))
+            um = tuple((py_unfix_name(a), py_unfix_name(b)) for a, b in m)
+            if um != m: ops.append(('rn', um, 1))
+        else: ops.append(('rn', m, (n + k) % 2))
     ops.append(('rn', (), 0))
     if absent: ops.append(('rn', ((absent[0], U[0]),), 1))
     if len(present) >= 2:        # outside the quantifier (kept for the model/implementation comparison)
@@ -486,6 +558,9 @@ def alphabet(st, n):
         if len(keys) >= 2: ops.append(('ro', (), tuple(keys[:-1])))                   # drops one (outside)
     if len(present) >= 2: ops.append(('ro', tuple(present[:-1]), ()))                 # drops one (outside)
     if present: ops.append(('ro', (present[0], 'zzzzz'), ()))                         # unknown name
+    # calls that are refused half way: the caller catches the exception and goes on with the grid
+    if keys and present: ops.append(('ro', (), ((keys[0][1], keys[0][0]), ('zzzzz', present[0]))))   # one reversal, then an unknown pair
+    if len(present) >= 2: ops.append(('dm', (present[-1], 'zzzzz', present[0]), 0))                    # one demotion, then an unknown name
     if st.other is not None:
         # grid-combining edits (two-grid start grids only): minc in its call forms, both sums, embed with the grids'
         # own block objects / with foreign objects of the same names / refused (too big, unknown block)
@@ -496,6 +571,7 @@ def alphabet(st, n):
             ops.append(('mi', 'zi', 1, tuple(present[:2]), inel, 0))        # custom naming: both blocks get matrix block '1zz 1'
             ops.append(('mi', 'km', 1, (present[-1], 'zzzzz'), inel, 0))    # unknown block after a good one
         ops.append(('mi', 'dd', 0, (), inel, 0))                            # one volume fraction: refused
+        if present: ops.append(('mi', 'dm', 2, (present[0], present[0]), inel, 0))   # refused in the second pass, after a full first one
         ops.append(('ad', 0)); ops.append(('ad', 1))
         onames = [b.name for b in st.other.blocklist]
         if present and onames:
@@ -541,6 +617,8 @@ def record(stats, case, ops_run, out, line):
     stats.seq += 1; stats.steps += out.steps
     stats.lens[len(ops_run)] += 1
     for op in ops_run[:out.steps + (1 if out.error else 0)]: stats.opk[op[0]] += 1
+    for e in out.refused: stats.errk[e] += 1
+    if out.refused: stats.endk['sequences-with-a-refused-edit-that-went-on'] += 1
     if out.error:
         stats.errk[out.error[1]] += 1; stats.endk['ends-in-' + out.error[1]] += 1
     else: stats.endk['completes'] += 1
@@ -607,9 +685,9 @@ def exhaustive_worker(args):
         compare(stats, 'exhaustive', exe, lines, cases, expects)
         del lines[:], cases[:], expects[:]
 
-    def leaf(ops, encs, obs, w, error):
+    def leaf(ops, encs, obs, w, error, refused):
         out = Outcome()
-        out.obs, out.error, out.steps = obs, error, len(ops) - (1 if error else 0)
+        out.obs, out.error, out.steps, out.refused = obs, error, len(ops) - (1 if error else 0), refused
         out.fail, out.domain_exits, out.strong_rock_breaks = w.fail, w.domain_exits, w.strong_breaks
         case = {'init': {'kind': 'seed', 'name': seedname}, 'ops': [list(o) for o in ops]}
         record(stats, case, ops, out, '\t'.join(head + encs))
@@ -623,36 +701,34 @@ def exhaustive_worker(args):
         cases.append(({'init': {'kind': 'seed', 'name': seedname}, 'ops': [list(o) for o in prefix]}, len(prefix) - 1))
         expects.append(expected)
 
-    def node(prefix, encs, obs, w):
-        st = build_seed(seed_ops)
-        for op in prefix[:-1]: apply_op(st, op)          # did not raise when the parent node ran it
+    def node(prefix, encs, obs, w, refused):
+        st = build_seed(seed_ops, SEED_UNIVERSE.get(seedname))
+        for op in prefix[:-1]:
+            try: apply_op(st, op)
+            except Exception: pass                      # a refused edit after which the parent node went on
         if prefix:
             op, t = prefix[-1], len(prefix) - 1
             w = w.copy()
-            dom, key = w.before(st, op)
-            try: apply_op(st, op)
-            except Exception as e:
-                ask(prefix, encs, 'E:' + exn_name(e))
-                leaf(prefix, encs, obs + ['E:' + exn_name(e)], w, (t, exn_name(e))); return   # the sequence ends at the first exception
-            d = dump_st(st, dual)
-            obs = obs + [d if w.after(st, op, t, dom, key) else d + '!']
-            ask(prefix, encs, obs[-1])
-            if len(prefix) == depth:
-                leaf(prefix, encs, obs, w, None); return
+            o, err, stop = do_step(w, st, op, t, dual, False)
+            obs = obs + [o]
+            ask(prefix, encs, o)
+            if err and not stop: refused = refused + [err]
+            if stop or len(prefix) == depth:
+                leaf(prefix, encs, obs, w, (t, err) if stop else None, refused); return
         else:
             w = Watch(st)
         alpha = alphabet(st, len(prefix))
         if not prefix:
             alpha = [alpha[i] for i in first_idx if i < len(alpha)]
-        for op in alpha: node(prefix + [op], encs + [encode_op(op)], obs, w)
+        for op in alpha: node(prefix + [op], encs + [encode_op(op)], obs, w, refused)
 
-    node([], [], [], None)
+    node([], [], [], None, [])
     flush()
     return stats
 
 
 def n_first_level(seedname):
-    return len(alphabet(build_seed(SEEDS[seedname]), 0))
+    return len(alphabet(seed_state(seedname), 0))
 
 
 # ----------------------------------------------------------------------------------------------
@@ -662,8 +738,12 @@ LETTERS = 'abcdefghijklmnopqrstuvwxyz'
 
 def fresh_name(rng, taken):
     while True:
-        n = rng.choice(['  ', ' ', 'q', 'zz'])
-        n = (n + ''.join(rng.choice(LETTERS) for _ in range(3 - len(n))) + rng.choice([' 1', ' 7', '12', '99', ' 0']))[:5]
+        if rng.random() < 0.2:
+            # a digit in the third place: names in whose (a3, i2) spelling fix_blockname has something to do ('qk3 7' <-> 'qk307')
+            n = rng.choice(LETTERS) + rng.choice(LETTERS) + rng.choice('123456789') + rng.choice(['0', '0', ' ', '1']) + rng.choice('0123456789')
+        else:
+            n = rng.choice(['  ', ' ', 'q', 'zz'])
+            n = (n + ''.join(rng.choice(LETTERS) for _ in range(3 - len(n))) + rng.choice([' 1', ' 7', '12', '99', ' 0']))[:5]
         if n not in taken: return n
 
 
@@ -822,7 +902,11 @@ def random_op(rng, st, geo_lists, prof):
             v = fresh_name(rng, taken); m = [(ks[0], v), (ks[1], v)]
         else:
             v = fresh_name(rng, taken); m = [(ks[0], v)]
-        return ('rn', tuple(m), rng.randint(0, 1))
+        fixf = rng.randint(0, 1)
+        if fixf and rng.random() < 0.35:
+            # the map written in the (a3, i2) spelling, as rename_blocks(fix_blocknames=True) accepts it
+            m = [(py_unfix_name(a), py_unfix_name(b)) for a, b in m]
+        return ('rn', tuple(m), fixf)
     if k == 'ro':
         style = rng.choice(['b', 'c', 'bc', 'geo'] if valid else ['subset', 'unknown', 'dup'])
         bns, cns = (), ()
@@ -901,15 +985,14 @@ def random_worker(args):
             if any(not NAME_OK.match(x) for x in op_names(op)): continue
             if op[0] == 'mi' and len(st.main.blocklist) > 400: continue      # keep MINC'd grids from growing without bound
             ops.append(op)
-            dom, key = w.before(st, op)
-            if w.consistent: stats.keys[key] += 1
-            try: apply_op(st, op)
-            except Exception as e:
-                out.error = (len(ops) - 1, exn_name(e)); out.obs.append('E:' + exn_name(e)); break
+            cls = w.before(st, op)
+            if w.consistent: stats.keys[cls[1]] += 1
+            o, err, stop = do_step(w, st, op, len(ops) - 1, dual, hash_mode, cls)
+            out.obs.append(o)
+            if stop:
+                out.error = (len(ops) - 1, err); break
             out.steps += 1
-            d = dump_st(st, dual)
-            ok = w.after(st, op, len(ops) - 1, dom, key, mark=not hash_mode)
-            out.obs.append(adler(d) if hash_mode else d if ok else d + '!')
+            if err: out.refused.append(err)
         out.fail, out.domain_exits, out.strong_rock_breaks = w.fail, w.domain_exits, w.strong_breaks
         case = {'init': init, 'ops': [list(o) for o in ops]}
         line = '%s%d\t' % ({(0, 0): 'F', (0, 1): 'H', (1, 0): 'D', (1, 1): 'E'}[(int(dual), int(hash_mode))], len(prefix) - 1) + \
@@ -917,6 +1000,17 @@ def random_worker(args):
         record(stats, case, ops, out, line)
         stats.lens['blocks:%d' % (10 * (nblk // 10))] += 1
         lines.append(line); cases.append(case); expects.append('|'.join(out.obs))
+        if ci % 4 == 1:
+            # isolation: the same edits on a second, newly built start grid, in a process that has by now created and edited many
+            # other grids, must be observed exactly as the first time (no state kept between calls or shared between objects)
+            stats.lens['replayed on a fresh grid later in the same process'] += 1
+            out2 = run_impl_sequence(start_state(init), ops, hash_mode, dual)
+            if out2.obs != out.obs[1:]:
+                i = 0
+                while i < min(len(out2.obs), len(out.obs) - 1) and out2.obs[i] == out.obs[i + 1]: i += 1
+                stats.failn['isolation:second-run-differs'] += 1
+                stats.fail.setdefault('isolation:second-run-differs', (dict(case, ops=[list(o) for o in ops[:i + 1]], replay_twice=True), i,
+                                      ['the same edits on an identically built grid gave a different grid the second time (edit %d)' % i]))
         if len(stats.samples) < 2 and nblk <= 8 and len(ops) >= 5:
             stats.samples.append({'start': 'fromgeo(rectangular %dx%dx%d, atmos_type %d): %d blocks' % (params + (nblk,)) +
                                   (' + a second grid of %d blocks' % len(st.second().blocklist) if dual else ''),
@@ -959,7 +1053,7 @@ def _t(o):
 
 def start_state(init, with_geo=False):
     if init['kind'] == 'seed':
-        st = build_seed(SEEDS[init['name']])
+        st = seed_state(init['name'])
         return (None, st) if with_geo else st
     if init['kind'] == 'geo':
         geo, g = make_geo_grid(tuple(init['params']))
@@ -1111,7 +1205,8 @@ def extended_edits(ctx, n_random):
                 g.minc(rng.choice(fracs), 35., 1, None, matrix_blockname=lambda name, level: str(level + 4) + name[1:])
         except Exception as e:
             kinds['minc raised ' + type(e).__name__] += 1
-            # the refusal itself must not have corrupted what was there before a later successful use: not covered
+            # a refused minc: the caller may catch the exception and keep the grid
+            if check(g, 'minc:refused-call', inp, 'a minc call that raised %s' % type(e).__name__): follow_up(g, 'minc:refused-call', inp, 'a refused minc')
             continue
         key = 'minc:matrix-names-collide' if mode in ('collide', 'custom-noninjective') else 'minc:any'
         if check(g, key, inp, 'minc'): follow_up(g, key, inp, 'minc')
@@ -1146,6 +1241,7 @@ def extended_edits(ctx, n_random):
                 if res is None: continue
         except Exception as e:
             kinds['%s raised %s' % (op, type(e).__name__)] += 1
+            check(g1, ('__add__' if op == 'add' else 'embed') + ':refused-call', inp, 'the grid after %s raised %s' % (op, type(e).__name__))
             continue
         if check(res, key, inp, op): follow_up(res, key, inp, op)
     ctx.oracle_cases('grid-combining-edits', ncase, kinds=dict(kinds))
@@ -1158,6 +1254,8 @@ def run(ctx):
                 'delete_block, demote_block, add_connection (all ordered pairs of present blocks, one self connection), delete_connection (keys and reversed keys), '
                 'rename_blocks with EVERY one-to-one map from present names into the 4-name universe that avoids unrenamed blocks (swaps, cycles, chains included), '
                 'reorder with block permutations / connection permutations with reversals, plus malformed calls}; '
+                'a further start grid (fixpair) draws names and rename maps from a universe on which fix_blockname is not the identity (ab101 / ab1 1), all maps in both call forms and respelled; '
+                'an edit that raises on a consistent grid does not end a sequence (the exception is caught, the grid it leaves is dumped, compared and checked, and the sequence goes on); '
                 '(2) random sequences up to length 60 on t2grid().fromgeo(mulgrid().rectangular(...)) grids of 1..200 blocks (all atmosphere types), generator '
                 'biased to valid calls; (3) the grid-combining edits: two further start grids hold a SECOND grid (block names disjoint from / overlapping the main one) and their '
                 'alphabet adds minc (default and custom naming functions, 0..2 levels, all blocks / a selection / an unknown block), main + other, other + main and embed '
@@ -1173,9 +1271,13 @@ def run(ctx):
                     'with the verdict of the Coq test inv_b on the model state (inv_test_decides: inv_b g = true <-> Inv g), so it is trusted only on the hashed large-grid steps; '
                     'its classifier of inputs (classify)']
     ctx.assumptions += ['arguments are well-formed: add_block receives a block whose rock type object is grid.rocktype[name]; add_connection receives the '
-                        'grid\'s current block objects; names are non-empty strings over [A-Za-z0-9 ]; fix_blockname is the identity on every name used '
-                        '(then rename_blocks(fix_blocknames=True) and (False) coincide: both are exercised on the implementation)',
-                        'an edit that raises ends the sequence (the state after an exception is not covered)',
+                        'grid\'s current block objects; names are 5-character strings over [A-Za-z0-9 ]; both call forms of rename_blocks are modelled: '
+                        'fix_blocknames=False, and the default True where mulgrids.fix_block_mapping first rewrites the map (names in the TOUGH2 (a3, i2) spelling: start grid '
+                        'fixpair, 20% of the fresh names of the random sweep, maps respelled in unfixed form)',
+                        'a REFUSED edit (the method raises) of a consistent grid does not end the sequence: the caller catches the exception and goes on; the statement is '
+                        'evaluated on what the refused edit left behind and the dump is compared with the model (GridEdit.after). Only an exception raised on a grid that '
+                        'is already inconsistent (after a known finding / an edit outside the quantifier) ends the sequence, and so does a refused delete_block for the '
+                        'comparison with the model (Python walks a set of connection names); the statement is evaluated after it all the same',
                         '"rock type registered" is read by name (block.rocktype.name is a key of grid.rocktype), as t2data/t2grid themselves use it',
                         'the operands of __add__ / embed are consistent grids; after the sum the operands are not edited any more (the result holds their objects: '
                         'editing an operand edits the result behind its back; such edits are run for the model/implementation comparison and not held against the statement); '
@@ -1197,10 +1299,10 @@ def run(ctx):
             os.replace(flag + '.tmp', flag)
         extended_edits(ctx, 1500 if ctx.thorough else 200)
     if ctx.thorough:
-        plan = [('empty', 4), ('pair', 3), ('chain', 3), ('ring', 3), ('pair+disjoint', 3), ('chain+overlap', 3)]
+        plan = [('empty', 4), ('pair', 3), ('chain', 3), ('ring', 3), ('pair+disjoint', 3), ('chain+overlap', 3), ('fixpair', 3)]
         nrand, sizes = 3000, ['small'] * 5 + ['medium'] * 3 + ['large'] * 2
     else:
-        plan = [('empty', 3), ('pair', 3), ('chain', 2), ('ring', 2), ('pair+disjoint', 2), ('chain+overlap', 2)]
+        plan = [('empty', 3), ('pair', 3), ('chain', 2), ('ring', 2), ('pair+disjoint', 2), ('chain+overlap', 2), ('fixpair', 2)]
         nrand, sizes = 320, ['small'] * 6 + ['medium'] * 3 + ['large']
     tot = sweep(ctx, (os.path.join(ctx.build, 'drv'), flag), plan, nrand, 60, sizes, meanwhile=build_then_combine)
     ctx.extra['exhaustive'] = True
@@ -1229,8 +1331,13 @@ def replay(ctx, data):
         if not hits: print('replay: grid-combining sweep finds the grid consistent after every %s case' % key)
         return bool(hits)
     if not case or 'ops' not in case: return True
-    st = start_state(case['init'])
     ops = [_t(o) for o in case['ops']]
+    if case.get('replay_twice'):
+        o1 = run_impl_sequence(start_state(case['init']), ops)
+        o2 = run_impl_sequence(start_state(case['init']), ops)
+        print('replay: the same %d edit(s) on two identically built grids, one after the other: %s' % (len(ops), 'DIFFERENT grids' if o1.obs != o2.obs else 'same grids'))
+        return o1.obs != o2.obs
+    st = start_state(case['init'])
     out = run_impl_sequence(st, ops)
     print('replay: start %s, %d edit(s): %s' % (json.dumps(case['init']), len(ops), json.dumps(case['ops'])[:600]))
     if out.fail:
